@@ -31,8 +31,9 @@ RULE = ('seq: breadth-first over reference-netlist states (dedup on the full obs
         'user class with the same short class name instantiated before / after the primitive (driver registered, second driver refused, '
         'integrity check accepts)')
 ASSUMPTIONS = [
-    'a parent\'s wires/children are what Logic._wires / Logic.children hold (the anchors\' definition); a wire object '
-    'that a refused rename/reparent has taken out of its parent\'s table is recorded as an observation, not a violation',
+    'a parent\'s wires/children are what Logic._wires / Logic.children hold (the anchors\' definition) AND what the wire objects '
+    'themselves say (Wire.parent, Wire.name): two wire objects handed to the caller never claim the same (parent, name), listed or not; '
+    'a wire object that a refused rename/reparent has merely taken out of its parent\'s table is recorded as an observation',
     'side effects of a refused constructor that the statement does not forbid (half-built child registered under its '
     'own new name, reader registered on the input wire) are modelled in mc/refmodels/netlist.py and cross-checked '
     'against the live objects on every transition',
@@ -188,6 +189,18 @@ def check_transition(hist, op, pre):
                 'earlier_entity_still_in_place': [a is b for a, b in zip(after, before)],
                 'statement': 'the call that would create the conflict raises an error and the earlier driver, '
                              'child or wire stays in place'}), 'post': None}
+    # a wire of parent P named n is a Wire object whose own parent/name fields say so (what getFullPath() shows), whether or
+    # not P's table still lists it: after ANY call, accepted or refused, no two wire objects may claim the same (parent, name)
+    claim = {}
+    for h, w in enumerate(real.W):
+        k = (id(w.parent), w.name)
+        if k in claim:
+            return {'violation': ('two-wire-objects-claim-one-name', {
+                'raised': exc, 'wires': [claim[k], h], 'name': w.name, 'parent': _descr(w.parent, real),
+                'listed_in_parent_table': [real.W[claim[k]].parent._wires.get(w.name) is real.W[claim[k]],
+                                           w.parent._wires.get(w.name) is w],
+                'statement': 'a parent never ends up with two wires of the same name'}), 'post': None}
+        claim[k] = h
     outcome, post = nl.apply(pre, op)
     got = real.abstract()
     if ((exc is None) != (outcome == 'ok') or got != post.key()) and op[0] in ('rename', 'reparent', 'reparentAndRename'):
